@@ -6,10 +6,17 @@ M  TLC evaluates the expander twin on pages x libraries x need_pre_expand sets x
    nothing selected + parser functions off => text unchanged; hooks once per expanded call.
 G  every case runs on the real expand(): returned string and the exact sequence of hook
    calls (name, final argument map, expansion seen by post_template_fn) must equal the twin's.
+R  repeated calls (Gen_ExpanderRep): the SAME call 2x / 3x in one piece of text (page, template body --
+   also equal only after {{{n}}} substitution --, argument value, #if branch, link part, unexpanded
+   wrapper; with another call between the copies) x hooks that answer per CALL (marker for the first
+   call only / for all but the first / numbered markers; a numbering post_template_fn).  The twin threads
+   the hook calls through its state, so output and the exact hook-call sequence come from TLC; TLC also
+   checks that n copies of a unit make n times the hook calls of one copy.
 """
 from __future__ import annotations
 
 import json
+from concurrent.futures import ThreadPoolExecutor
 from pathlib import Path
 
 import common
@@ -20,6 +27,76 @@ from common import Outcome, Scratch, pmap, tlc
 
 PID = "C13"
 _G = {}
+HISTORY_POLICIES = {"first", "later", "num", "number"}
+
+
+def run_case(ctx, c):
+    """One expand() call with the hook policies of Expander.tla (banner "C13 repeated calls"): what a hook
+    answers is a function of (policy, template name, ordinal of this call of the hook in this expand())."""
+    o = c["o"]
+    hooks = []
+    count = {"t": 0, "p": 0}
+
+    def tfn(name, args):
+        hooks.append(("template_fn", name, dict(args)))
+        count["t"] += 1
+        k, pol = count["t"], o["tfn"]
+        if pol == "marker" or (pol == "first" and k == 1) or (pol == "later" and k > 1):
+            return f"<MARK:{name}>"
+        if pol == "num":
+            return f"<MARK:{name}#{k}>"
+        return None
+
+    def pfn(name, args, t):
+        hooks.append(("post_template_fn", name, dict(args), t))
+        count["p"] += 1
+        if o["pfn"] == "replace":
+            return f"<POST:{name}>"
+        if o["pfn"] == "number":
+            return f"{t}#{count['p']}"
+        return None
+
+    src = tr.render(c["page"])
+    exc = None
+    out = None
+    try:
+        out = ctx.expand(
+            src,
+            pre_expand=o["pre"],
+            templates_to_expand=set(o["exp"]) if o["hasExp"] else None,
+            templates_to_not_expand=set(o["nots"]) if o["hasNot"] else None,
+            expand_parserfns=o["pfns"],
+            expand_invoke=o["invoke"],
+            template_fn=tfn if o["tfn"] != "none" else None,
+            post_template_fn=pfn if o["pfn"] != "none" else None,
+        )
+    except Exception as e:  # noqa: BLE001
+        exc = repr(e)
+    return {"src": src, "out": out, "nout": ex.norm_out(out) if isinstance(out, str) else None, "exc": exc, "hooks": hooks}
+
+
+def hook_diff(got, exp):
+    """What is wrong with the hook calls, in the statement's terms ('' when they agree)."""
+    if got == exp:
+        return ""
+    res = []
+    for h in ("template_fn", "post_template_fn"):
+        g = [x for x in got if x[0] == h]
+        e = [x for x in exp if x[0] == h]
+        if len(g) == len(e):
+            continue
+        if len(g) < len(e):
+            miss = next((x for i, x in enumerate(e) if i >= len(g) or g[i][:3] != x[:3]), e[-1])
+            earlier = sum(1 for x in g if x[:3] == miss[:3])
+            res.append(f"{h} was called {len(g)} times for {len(e)} expanded calls: no call for {{{{{miss[1]}}}}} with arguments {miss[2]!r}"
+                       + (f" (the same call was expanded {earlier}x before: every occurrence is a call of its own)" if earlier else ""))
+        else:
+            res.append(f"{h} was called {len(g)} times for {len(e)} expanded calls")
+    if not res:
+        same = sorted(map(repr, (x[:2] for x in got))) == sorted(map(repr, (x[:2] for x in exp)))
+        res.append("the hooks were called for the same calls in another order" if same and [x[:3] for x in got] != [x[:3] for x in exp]
+                   else "the hooks received other arguments / expansions")
+    return "; ".join(res)
 
 
 def replay_chunk(groups):
@@ -34,14 +111,16 @@ def replay_chunk(groups):
                 for idx in idxs:
                     c = cases[idx]
                     ctx.start_page("Pg")
-                    ob = ex.run_case(ctx, c)
+                    ob = run_case(ctx, c)
                     exp_out = tr.text(c["out"])
                     exp_hooks = ex.expected_hooks(c)
                     ok = ob["exc"] is None and ob["nout"] == exp_out and ob["hooks"] == exp_hooks
                     asis_out = tr.text(c.get("asis_out", c["out"]))
                     if not ok:
+                        hd = hook_diff(ob["hooks"], exp_hooks)
                         res.append({"idx": idx, "src": ob["src"], "out": ob["out"], "exc": ob["exc"], "hooks": ob["hooks"][:6],
-                                    "exp_out": exp_out, "exp_hooks": exp_hooks[:6], "ok": False,
+                                    "exp_out": exp_out, "exp_hooks": exp_hooks[:6], "ok": False, "hookwhy": hd,
+                                    "order_only": hd.startswith("the hooks were called for the same calls in another order"),
                                     "asis": ob["exc"] is None and ob["nout"] == asis_out and asis_out != exp_out})
                     else:
                         res.append({"idx": idx, "ok": True, "nh": len(exp_hooks)})
@@ -105,15 +184,25 @@ def outside_statement(c):
 def run(tier: str) -> int:
     o = Outcome(PID, tier)
     o.rule = ("each (library, need_pre_expand set, page, selection/switch/hook combination) of Gen_Expander universe C13 is one case; "
-              "distinct_nontrivial = distinct (page, options, need) for which at least one call is left unexpanded or a hook fires")
+              "distinct_nontrivial = distinct (page, options, need) for which at least one call is left unexpanded or a hook fires; "
+              "plus Gen_ExpanderRep: (unit call, shape of repetition, need set, selection, per-call hook policy pair) is one case")
     o.assumptions = ["marker strings returned by the hooks are non-empty and do not start with a list marker",
-                     "parser-function first arguments are written without leading blanks (expand() strips them when re-emitting)"]
+                     "parser-function first arguments are written without leading blanks (expand() strips them when re-emitting)",
+                     "hooks are deterministic functions of (template name, arguments, number of earlier calls of the hook in this expand())"]
     uni = "C13" if tier == "thorough" else "C13Q"
-    r = tlc("Gen_Expander", f"Gen_Expander_{uni}.cfg", workers=1, timeout=3000)
+    runi = "C13R" if tier == "thorough" else "C13RQ"
+    # the two generators are independent TLC runs: run them side by side
+    with ThreadPoolExecutor(max_workers=1) as pool:
+        fut = pool.submit(tlc, "Gen_ExpanderRep", f"Gen_ExpanderRep_{runi}.cfg", workers=1, timeout=3000)
+        r = tlc("Gen_Expander", f"Gen_Expander_{uni}.cfg", workers=1, timeout=3000)
+        rr = fut.result()
     o.add_tlc(f"Gen_Expander[{uni}] laws+cases", r)
-    cases = r.cases
+    o.add_tlc(f"Gen_ExpanderRep[{runi}] repeated calls x per-call hook policies: laws+cases", rr)
+    cases = r.cases + rr.cases
     _G["cases"] = cases
-    results = pmap(replay_chunk, ex.group_cases(cases), chunk=1)
+    groups = [g[i:i + 1500] for g in ex.group_cases(cases) for i in range(0, len(g), 1500)]
+    results = pmap(replay_chunk, groups, chunk=1)
+    rep_shapes = {}
     for ob in results:
         c = cases[ob["idx"]]
         o.evaluations += 1
@@ -121,10 +210,13 @@ def run(tier: str) -> int:
         if ob["ok"]:
             if ob["nh"] or "{{" in "".join(c["out"]):
                 o.shape((common.json_key(c["page"]), common.json_key(c["o"]), common.json_key(c["need"])))
+            if "shape" in c and ob["nh"]:
+                rep_shapes[c["shape"]] = rep_shapes.get(c["shape"], 0) + 1
             continue
         case = {"lib": {k: tr.render_body(v) for k, v in c["lib"].items()}, "need_pre_expand": c["need"], "page": ob["src"],
                 "options": c["o"], "expected_out": ob["exp_out"], "got_out": ob["out"], "exception": ob["exc"],
                 "expected_hooks": ob["exp_hooks"], "got_hooks": ob["hooks"]}
+        hookwhy = ob.get("hookwhy", "")
         if ob["exc"]:
             o.violation(case, f"expand() raised {ob['exc']}", cls="exception")
         elif ob.get("asis") and o.known:
@@ -132,10 +224,17 @@ def run(tier: str) -> int:
         elif outside_statement(c):
             o.note_drift({"page": ob["src"], "options": c["o"], "model_out": ob["exp_out"], "real_out": ob["out"],
                           "note": "call inside a disabled parser function"})
+        elif ob.get("order_only") and (c["o"]["tfn"] in HISTORY_POLICIES or c["o"]["pfn"] in HISTORY_POLICIES):
+            # same calls, other order, and only the per-call answers make the order visible: the statement
+            # fixes how often and with what the hooks are called, not the order between different calls
+            o.note_drift({"page": ob["src"], "options": c["o"], "model_out": ob["exp_out"], "real_out": ob["out"],
+                          "model_hooks": ob["exp_hooks"], "real_hooks": ob["hooks"], "note": "order of hook calls between different calls"})
         elif ex.norm_out(ob["out"]) != ob["exp_out"]:
-            o.violation(case, f"selective expansion of {ob['src']!r} returned {ob['out']!r}; the specification gives {ob['exp_out']!r}", cls="out")
+            o.violation(case, f"selective expansion of {ob['src']!r} returned {ob['out']!r}; the specification gives {ob['exp_out']!r}"
+                        + (f" [{hookwhy}]" if hookwhy else ""), cls="out")
         else:
-            o.violation(case, f"hook calls differ for {ob['src']!r}: got {ob['hooks']!r}, specification {ob['exp_hooks']!r}", cls="hooks")
+            o.violation(case, f"hook calls differ for {ob['src']!r}: {hookwhy}: got {ob['hooks']!r}, specification {ob['exp_hooks']!r}", cls="hooks")
+    o.extra["repeated_call_cases_with_hook_calls_by_shape"] = rep_shapes
     o.exhaustive = True
     mid = cases[len(cases) // 2]
     o.sample({"page": tr.render(mid["page"]), "options": mid["o"], "need": mid["need"], "expected": tr.text(mid["out"]),
